@@ -7,7 +7,6 @@ import (
 	"fmt"
 	"io"
 	"os"
-	"os/exec"
 	"runtime"
 	"strconv"
 	"strings"
@@ -553,61 +552,5 @@ func runC01cluster(cw *caseWriter, tier string, seed uint64) {
 	if tier != "quick" {
 		count = 4000
 	}
-	const workers = 8
-	var jobs [workers]bytes.Buffer
-	for k := 0; k < count; k++ {
-		tag := cw.tag("e")
-		fmt.Fprintf(&jobs[k%workers], "%s %d\n", tag, r.next())
-	}
-	var mu sync.Mutex
-	var wg sync.WaitGroup
-	for wk := 0; wk < workers; wk++ {
-		wg.Add(1)
-		go func(wk int) {
-			defer wg.Done()
-			cmd := exec.Command(os.Args[0], "c01clbatch")
-			cmd.Env = append(os.Environ(), "GOMAXPROCS=4")
-			cmd.Stdin = &jobs[wk]
-			cmd.Stderr = os.Stderr
-			out, err := cmd.Output()
-			mu.Lock()
-			defer mu.Unlock()
-			if err != nil {
-				cw.stats["c01cl_child_errors"]++
-				fmt.Fprintln(os.Stderr, "c01clbatch:", err)
-			}
-			for _, line := range strings.Split(string(out), "\n") {
-				f := strings.Fields(line)
-				if len(f) == 2 && f[0] == "#fallbacks" {
-					k, _ := strconv.Atoi(f[1])
-					cw.stats["c01cl_settle_fallbacks"] += k
-					continue
-				}
-				if len(f) < 4 {
-					continue
-				}
-				leaders, _ := strconv.Atoi(f[1])
-				nin, _ := strconv.Atoi(f[2])
-				if len(f) < 4+nin {
-					continue
-				}
-				in := make([]uint64, nin)
-				for i := range in {
-					in[i], _ = strconv.ParseUint(f[3+i], 10, 64)
-				}
-				nobs, _ := strconv.Atoi(f[3+nin])
-				if len(f) != 4+nin+nobs {
-					continue
-				}
-				obs := make([]uint64, nobs)
-				for i := range obs {
-					obs[i], _ = strconv.ParseUint(f[4+nin+i], 10, 64)
-				}
-				cw.stats["c01cl_scripts"]++
-				cw.stats["c01cl_leader_transitions"] += leaders
-				cw.emit(f[0], 1, in, obs, leaders >= 1)
-			}
-		}(wk)
-	}
-	wg.Wait()
+	evBatches(cw, "c01clbatch", "e", 1, count, r, "c01cl", nil)
 }
